@@ -112,7 +112,19 @@ def shard(args):
         if i % 8 == 3:
             # directed: interim 100 (Continue) responses, whatever the state of the request they belong to
             opts.update(p_expect=0.5, p_interim=0.6)
+        if i % 16 == 9:
+            opts.update(close_delimited=False)
         ex = grammar.gen_exchange(seed * 1000003 + i, opts)
+        if i % 16 == 9:
+            # directed: the last exchange of the connection is an accepted protocol upgrade (101 Switching Protocols, no body); the
+            # connection is then closed the normal way - still N requests, N responses, N complete transactions
+            k, nonce = ex['n'], ex['nonce']
+            proto = r.pick(['websocket', 'h2c', 'TLS/1.0'])
+            rq = ('GET /r%d-%s HTTP/1.1\r\nHost: h\r\nConnection: Upgrade\r\nUpgrade: %s\r\n\r\n' % (k, nonce, proto)).encode()
+            rs = ('HTTP/1.1 101 Switching Protocols\r\nX-Id: %d-%s\r\nUpgrade: %s\r\nConnection: Upgrade\r\n\r\n' % (k, nonce, proto)).encode()
+            ex['reqs'].append((rq, dict(headers=[['Host', 'h', False], ['Connection', 'Upgrade', False], ['Upgrade', proto, False]])))
+            ex['ress'].append((rs, dict(id='%d-%s' % (k, nonce), status=101, body=b'', headers=[['X-Id', '%d-%s' % (k, nonce), False], ['Upgrade', proto, False], ['Connection', 'Upgrade', False]])))
+            ex['n'] = k + 1
         ops, readings, style = make_history(ex, r)
         cfg = {'PERSONALITY': r.randrange(10), 'URLENC_PARSER': r.randrange(2), 'DUMP': hxb.DUMP_TX, 'AUTO_DESTROY': 0,
                'DESTROY_DONE': 1 if r.chance(0.2) else 0, 'MAX_TX': r.pick([-1, -1, 512, 100])}
